@@ -145,7 +145,8 @@ def kindsOf (tol : K) (o n : V3 K) (verts : List (V3 K)) (faces : List (T3 Nat))
 
 /-- `inside` faces -/
 def isKeep : Nat × T3 Nat × FaceKind → Bool
-  | (_, _, k) => k == .keep
+  | (_, _, .keep) => true
+  | _ => false
 /-- `onedge_quad`: `(face number, face, column of the corner behind)` -/
 def quadSel : Nat × T3 Nat × FaceKind → Option (Nat × T3 Nat × Nat)
   | (i, f, .quad c) => some (i, f, c)
